@@ -342,7 +342,9 @@ impl Change {
     }
 
     pub fn keep_in_conflict_resolution(&self) -> bool {
-        self.version == IN_CONFLICT_RESOLUTION_KEY_VERSION
+        // Only a conflict resolution may (re)plant the in-conflict marker, a client-supplied -2
+        // is just a stale version
+        self.version == IN_CONFLICT_RESOLUTION_KEY_VERSION && self.resolve_conflict
     }
 
     pub fn resolving_conflict(&self) -> bool {
